@@ -120,7 +120,12 @@ fn alias_commands(list: &yash_syntax::syntax::List) -> Vec<Rc<yash_syntax::synta
                 if let Some((w, _)) = sc.words.first() {
                     use yash_syntax::syntax::MaybeLiteral as _;
                     let name = w.to_string_if_literal();
-                    if name.as_deref() == Some("alias") || name.as_deref() == Some("unalias") {
+                    // only commands whose words need quote removal only (no expansion of any kind)
+                    let plain = sc
+                        .words
+                        .iter()
+                        .all(|(w, _)| !w.to_string().contains(['$', '`', '~', '*', '?', '[']));
+                    if plain && (name.as_deref() == Some("alias") || name.as_deref() == Some("unalias")) {
                         v.push(Rc::clone(&ao.first.commands[0]));
                     }
                 }
